@@ -319,7 +319,7 @@ package gateway
 //@   at DecodePlain.0 after let user = retn(0)
 //@   at DecodePlain.0 after let pass = retn(1)
 //@   ensures [C08,C24] keeps: ctInv(t)
-//@   ensures [C08] ignored_unless_awaited: old(t.state) != 0 ==> result == nil && h.mqttOutN == old(h.mqttOutN) && h.snOutN == old(h.snOutN) &&
+//@   ensures [C08,C09] ignored_unless_awaited: old(t.state) != 0 ==> result == nil && h.mqttOutN == old(h.mqttOutN) && h.snOutN == old(h.snOutN) &&
 //@      t.state == old(t.state) && t.mqConnect.Username == old(t.mqConnect.Username) && sameSlice(t.mqConnect.Password, old(t.mqConnect.Password)) &&
 //@      t.mqConnect.UsernameFlag == old(t.mqConnect.UsernameFlag) && t.mqConnect.PasswordFlag == old(t.mqConnect.PasswordFlag)
 //@   ensures [C08] unknown_method: old(t.state) == 0 && snPkt.Method != "PLAIN" ==> result != nil && h.mqttOutN == old(h.mqttOutN) &&
@@ -380,7 +380,7 @@ package gateway
 //@   let h = t.handler
 //@   assigns deref(h.state), h.snOutN, h.snOut, h.pktBuffer, armed(t.TimedTransaction.timer), t.TimedTransaction.TransactionBase.err,
 //@      closed(t.TimedTransaction.TransactionBase.done), calls(t.TimedTransaction.TransactionBase.finally)
-//@   ensures [C07] ignored_unless_connect_sent: old(t.state) != 3 ==> result == nil && state(h) == old(state(h)) && h.snOutN == old(h.snOutN)
+//@   ensures [C07,C09] ignored_unless_connect_sent: old(t.state) != 3 ==> result == nil && state(h) == old(state(h)) && h.snOutN == old(h.snOutN)
 //@   ensures [C07,C09] active_iff_broker_accepted: state(h) != old(state(h)) ==> state(h) == 1 && mqConnack.ReturnCode == 0 && old(t.state) == 3
 //@   ensures [C09] refused_is_congestion: old(t.state) == 3 && mqConnack.ReturnCode != 0 ==> result != nil && state(h) == old(state(h)) &&
 //@      (h.snOutN == old(h.snOutN) + 1 ==> istype(h.snOut[old(h.snOutN)], *snPkts1.Connack) && h.snOut[old(h.snOutN)].(*snPkts1.Connack).ReturnCode == 1)
